@@ -1,8 +1,32 @@
 package main
 
-import "fmt"
+import (
+	"fmt"
+	"os"
+	"path/filepath"
+	"strings"
+)
 
-func clockOverlay(dir string) map[string]string { return nil }
+// clockOverlay: for native replay of command harnesses the wall clock is replaced by the
+// harness clock: every cmd/*.go that calls time.Now() is copied with that call rewritten to
+// vrtNow(time.Now) (the only rewrite; generated at run time from /repo's current files).
+func clockOverlay(dir string) map[string]string {
+	out := map[string]string{}
+	files, _ := filepath.Glob(filepath.Join(repoDir, "cmd", "*.go"))
+	for _, f := range files {
+		if strings.HasSuffix(f, "_test.go") {
+			continue
+		}
+		b, err := os.ReadFile(f)
+		if err != nil || !strings.Contains(string(b), "time.Now()") {
+			continue
+		}
+		nf := filepath.Join(dir, "clock_"+filepath.Base(f))
+		os.WriteFile(nf, []byte(strings.ReplaceAll(string(b), "time.Now()", "vrtNow(time.Now)")), 0644)
+		out[f] = nf
+	}
+	return out
+}
 
 func selftest() int {
 	fmt.Println("selftest: ok")
